@@ -99,6 +99,19 @@ class Inliner:
             t = p.get('t') or {}
             if t.get('k') in ('record', 'union', 'array'):
                 return None          # a by-value object parameter is a copy: not modelled here
+        # an argument bound to a non-const reference / pointer parameter may be written by the helper: its variable must not occur in any
+        # other argument (the substituted expression would change its meaning half way through)
+        for i_, (p, a) in enumerate(zip(params, args)):
+            t = p.get('t') or {}
+            if t.get('k') in ('ref', 'ptr') and not (t.get('pointee') or {}).get('const'):
+                mine = {(y.get('rk'), y.get('id')) for y in walk(a) if isinstance(y, dict) and y.get('k') == 'ref' and y.get('rk') in ('local', 'param')}
+                for j_, b in enumerate(args):
+                    if j_ == i_:
+                        continue
+                    other = {(y.get('rk'), y.get('id')) for y in walk(b) if isinstance(y, dict) and y.get('k') == 'ref' and y.get('rk') in ('local', 'param')}
+                    # the same object handed over twice (aliasing arguments) is fine for substitution; a scalar used as an index is not
+                    if mine & other and any(isinstance(y, dict) and y.get('k') == 'index' for y in walk(b)):
+                        return None
         return cal
 
     # ---- the body of a helper, ready to be spliced
@@ -403,9 +416,9 @@ class NewNames:
             elif x.get('k') == 'un' and x.get('op') in ('++', '--'):
                 tgt = x.get('e')
             if tgt is not None:
-                t = _unwrap(tgt)
-                if isinstance(t, dict) and t.get('k') == 'ref' and t.get('rk') in ('local', 'param'):
-                    written.add((t['rk'], t.get('id')))
+                for y in walk(tgt):
+                    if isinstance(y, dict) and y.get('k') == 'ref' and y.get('rk') in ('local', 'param'):
+                        written.add((y['rk'], y.get('id')))
             # a variable whose address escapes, or that is handed to a callee that may write it, counts as written
             if x.get('k') == 'un' and x.get('op') == '&':
                 for y in walk(x.get('e')):
@@ -762,10 +775,26 @@ class PointerWalks:
             elif x.get('k') == 'un' and x.get('op') in ('++', '--'):
                 tgt = x.get('e')
             if tgt is not None:
-                t = _unwrap(tgt)
-                # a write to the variable itself (not through it): BASE / N as expressions change
-                if isinstance(t, dict) and t.get('k') == 'ref' and (t.get('rk'), t.get('id')) in roots:
-                    return True
+                # a write to the variable itself or to anything reached through it (a member, an element): BASE / N may change
+                for y in walk(tgt):
+                    if isinstance(y, dict) and y.get('k') == 'ref' and (y.get('rk'), y.get('id')) in roots:
+                        return True
+            if x.get('k') in ('call', 'icall'):
+                cal = self.prog.callee(x, self.f) if x.get('k') == 'call' else None
+                th = x.get('this')
+                if th is not None and not (cal or {}).get('const_method'):
+                    for y in walk(th):
+                        if isinstance(y, dict) and y.get('k') == 'ref' and (y.get('rk'), y.get('id')) in roots:
+                            return True
+                for i_, a in enumerate(x.get('args', [])):
+                    pt = (cal['params'][i_]['t'] if cal is not None and i_ < len(cal.get('params', [])) else None)
+                    if pt is None or (pt.get('k') in ('ref', 'ptr') and not (pt.get('pointee') or {}).get('const')):
+                        at = (_unwrap(a).get('t') or {}).get('k')
+                        if pt is None and at not in ('ptr', 'ref', 'array', 'record'):
+                            continue
+                        for y in walk(a):
+                            if isinstance(y, dict) and y.get('k') == 'ref' and (y.get('rk'), y.get('id')) in roots:
+                                return True
         return False
 
     def _try(self, s):
